@@ -86,8 +86,8 @@ Le32(a, b) == a[1] < b[1] \/ (a[1] = b[1] /\ a[2] <= b[2])
 \* wrapping product of a word with a small natural k (repeated addition)
 RECURSIVE MulSmall(_, _)
 MulSmall(w, k) == IF k = 0 THEN WZero ELSE Add32(w, MulSmall(w, k - 1))
-Min(a, b) == IF a < b THEN a ELSE b
-Cap(n) == Min(n, BIG)
+MinN(a, b) == IF a < b THEN a ELSE b
+Cap(n) == MinN(n, BIG)
 
 (***************************************************************************************************)
 (* Bounds of the property (model scale).  The implementation-scale bound used in trace validation  *)
